@@ -3,7 +3,7 @@
 use crate::util::*;
 use crate::world::RWorld;
 
-fn extract_script(text: &str) -> Vec<String> {
+pub fn extract_script(text: &str) -> Vec<String> {
     // minimal extraction of the "script": [...] array of strings from a replay JSON
     let key = "\"script\"";
     let i = match text.find(key) {
